@@ -37,10 +37,11 @@ def gen_programs(tier: str, seed: int, run: Run | None = None) -> list[dict]:
         run.coverage.setdefault("coverage_by_action", {})[f"Gen/{cfg}"] = data["coverage"]
     # programs with TWO filled gaps: the pair space (3.3 million states) is sampled by random walks of the same spec
     npairs = 25000 if tier == "quick" else 400000
+    pseed = 23 if tier == "quick" else seed + 23     # quick: one fixed sample (every change meets the same programs)
 
     def pairs():
         res = tlc.must_ok(tlc.run("Gen", "Gen_pairs_sim.cfg", workers=1, timeout=3600,
-                                  extra=("-simulate", f"num={npairs}", "-depth", "6", "-seed", str(seed + 23))), "Gen pairs")
+                                  extra=("-simulate", f"num={npairs}", "-depth", "6", "-seed", str(pseed))), "Gen pairs")
         seen, out = set(), []
         for p in res.printed:
             k = json.dumps(p, sort_keys=True)
@@ -48,7 +49,7 @@ def gen_programs(tier: str, seed: int, run: Run | None = None) -> list[dict]:
                 seen.add(k)
                 out.append(p)
         return {"printed": out}
-    pd = tlc.cached(f"gen-pairs-{npairs}-{seed}-{tlc.spec_digest('Gen')}", pairs)
+    pd = tlc.cached(f"gen-pairs-{npairs}-{pseed}-{tlc.spec_digest('Gen')}", pairs)
     if run is not None:
         run.coverage["tlc_runs"].append({"run": f"Gen/Gen_pairs_sim.cfg -simulate num={npairs} (two filled gaps)",
                                          "programs": len(pd["printed"])})
